@@ -171,7 +171,7 @@ func (x vec) join() string { return x.header + strings.Join(x.elems, "/") }
 // MutOps lists the mutation operators by name (for labels / evidence).
 var MutOps = []string{"byte-delete", "byte-insert", "byte-replace", "truncate", "append", "prepend",
 	"elem-delete", "elem-duplicate", "elem-swap-adjacent", "elem-move", "abv-replace", "val-replace", "colon-shape",
-	"empty-element", "header-replace", "append-vector", "case-flip", "elem-insert-foreign"}
+	"empty-element", "header-replace", "append-vector", "case-flip", "elem-insert-foreign", "long-insert"}
 
 // Mutate applies 1..3 edits to a valid vector and returns the result with the
 // operator names. The result may or may not still be in the language - the
@@ -234,6 +234,12 @@ func apply(t *rapid.T, vi int, s string, op string) string {
 	case "header-replace":
 		h := spec.Versions[vi].Header
 		return pick(t, "header", headers) + strings.TrimPrefix(s, h)
+	case "long-insert":
+		// a long run (lengths around 2^8 and 2^16: counters that wrap) of one chunk at some position
+		n := []int{200, 255, 256, 257, 300, 1000, 65535, 65536, 65537}[rapid.IntRange(0, 8).Draw(t, "len")]
+		chunk := pick(t, "chunk", []string{"X", "/", ":", "/E:X", "/AV:N", " ", "\x00", "N"})
+		i := pos(len(s) + 1)
+		return s[:i] + strings.Repeat(chunk, (n+len(chunk)-1)/len(chunk))[:n] + s[i:]
 	case "append-vector":
 		other := ValidVector(t, rapid.IntRange(0, 3).Draw(t, "otherver"))
 		sep := pick(t, "sep", []string{"/", "", " ", ",", "\n"})
